@@ -1,7 +1,7 @@
 #!/bin/bash
 # builds the two extracted drivers of coq/Par:
-#   _build/parfp    instrumented interpreter + race checker        (ocaml/parfp.ml   <- ExtractFp.v)
-#   _build/partrav  TRANSLATED traversal of ParallelAnalysis        (ocaml/partrav.ml <- ExtractTrav.v)
+#   _build/parfp    instrumented interpreter + race checker        (_build/parfp.ml   <- ExtractFp.v)
+#   _build/partrav  TRANSLATED traversal of ParallelAnalysis        (_build/partrav.ml <- ExtractTrav.v)
 # driver.ml is one source; the sections between (*FP-BEGIN*)/(*FP-END*) resp. (*TRAV-BEGIN*)/(*TRAV-END*) belong
 # to one driver only.  A driver whose extracted source is missing (its Coq file did not build) is removed and
 # the script exits non-zero after building the other one.
@@ -10,8 +10,7 @@ mkdir -p _build
 rc=0
 build() {  # $1 = module name (parfp|partrav)  $2 = section to DELETE (FP|TRAV)  $3 = module to open
   rm -f "_build/$1"
-  if [ ! -f "ocaml/$1.ml" ] || [ ! -f "ocaml/$1.mli" ]; then echo "extract.sh: ocaml/$1.ml missing"; rc=1; return; fi
-  cp "ocaml/$1.ml" "ocaml/$1.mli" _build/
+  if [ ! -f "_build/$1.ml" ] || [ ! -f "_build/$1.mli" ]; then echo "extract.sh: _build/$1.ml missing"; rc=1; return; fi
   sed -e "/(\*$2-BEGIN\*)/,/(\*$2-END\*)/d" -e "s/^open Parfp (\*OPEN\*)/open $3/" driver.ml > "_build/driver_$1.ml"
   ( cd _build && ( ocamlfind ocamlopt -O2 -w -a "$1.mli" "$1.ml" "driver_$1.ml" -o "$1" 2>/dev/null \
       || ocamlfind ocamlopt -w -a "$1.mli" "$1.ml" "driver_$1.ml" -o "$1" ) ) || rc=1
